@@ -525,8 +525,8 @@ func main() {
 		os.Exit(2)
 	}
 	root := os.Args[1]
-	if len(os.Args) > 2 && os.Args[2] == "gocode" {
-		fmt.Print(goCode(root))
+	if len(os.Args) > 3 && os.Args[2] == "gocode" {
+		fmt.Print(goCode(root, os.Args[3]))
 		return
 	}
 	var b strings.Builder
